@@ -1110,6 +1110,34 @@ def gen_rst_fieldlist(rng: random.Random) -> str:
     return '\n'.join(lines) + '\n'
 
 
+def gen_rst_deflist_terms(rng: random.Random) -> str:
+    """a consolidated field written as a definition list in which some term says more than the one (marked) identifier:
+    plain words, inline markup, a second identifier or a parenthesis after it, with or without a ' : ' classifier. The
+    splitter can only report such an item and keep the field as it is; whatever it does, no word of the term may vanish."""
+    lines: List[str] = [' '.join(gen_words(rng, 3, SAFE_WORDS)), '']
+    for _ in range(rng.randint(1, 2)):
+        lines.append(':%s:' % rng.choice(RST_CONS))
+        n = rng.randint(1, 3)
+        bad = rng.randrange(n)
+        for k in range(n):
+            name = rng.choice(['x', 'y', 'value', 'né'])
+            if k == bad or rng.random() < 0.3:
+                extra = rng.choice([' ' + ' '.join(gen_words(rng, rng.randint(1, 3), SAFE_WORDS)), ' *em* word', ' `z`',
+                                    ' ' + ' '.join(gen_words(rng, 1, SAFE_WORDS)) + ' : int', ' ``lit``',
+                                    ' (' + ' '.join(gen_words(rng, 1, SAFE_WORDS)) + ')',
+                                    '  ' + ' '.join(gen_words(rng, 2, SAFE_WORDS)) + ' : list of str'])
+                term = rng.choice(['`%s`', '`%s`', '`%s`', '%s', '*%s*']) % name + extra
+            else:
+                term = rng.choice(['`%s`', '%s', '`%s` : int']) % name
+            lines.append('    ' + term)
+            lines.append('        ' + ' '.join(gen_words(rng, rng.randint(1, 4), SAFE_WORDS)))
+            if rng.random() < 0.3:
+                lines += gen_rst_item_body(rng, '        ')
+        if rng.random() < 0.3:
+            lines.append(':%s: %s' % (rng.choice(RST_PLAIN), ' '.join(gen_words(rng, rng.randint(1, 4), SAFE_WORDS))))
+    return '\n'.join(lines) + '\n'
+
+
 RST_FIELD_CORPUS = [
     ":Parameters:\n    - `a`: desc a\n      more\n\n      second para\n\n      - nested\n    - `b` - desc b\n    - `c`\n",
     ":Keywords:\n    k : int\n        desc k\n\n        para two\n    `j`\n        desc j\n",
@@ -1117,4 +1145,8 @@ RST_FIELD_CORPUS = [
     ":IVariables:\n    x : int\n        d\n    y : a : b\n        e\n", ":custom tag arg: t\n", ":Types:\n    x\n        deflist not allowed\n",
     ":PARAMETERS:\n  1. `a`: x\n", ":Parameters:\n    - `a`:desc\n    - `b` :desc\n    - `c`-  desc\n    - `d`desc\n    - `e` : : x\n",
     ":Parameters:\n    - `a`: x\n\n    - \n", ":param: no arg\n", ":Parameters: - `x`: inline start\n",
+    # definition-list terms that carry more than the single (marked) identifier: nothing after it may be dropped
+    ":Parameters:\n    `x` trailing words\n        desc x\n    `y`\n        desc y\n",
+    ":Exceptions:\n    `E` when *bad* input\n        desc\n", ":Keywords:\n    `k` extra : int\n        desc k\n",
+    ":Variables:\n    v plain words\n        desc v\n", ":Parameters:\n    `x` `y`\n        both\n",
 ]
